@@ -37,7 +37,8 @@ import (
 
 func failf(sig, format string, a ...any) { vsched.Fail(sig, format, a...) }
 
-var objContents = [][]byte{[]byte("xxxyy"), []byte("zzz")}
+// Z is the empty object (it has a digest like any other, and "nothing to copy" is not "nothing to do").
+var objContents = [][]byte{[]byte("xxxyy"), {}}
 
 type replica struct {
 	name   string
@@ -61,6 +62,7 @@ type faulty struct {
 	name   string
 	budget *int
 	seen   *[]codes.Code
+	where  *[]string // per injected failure: "<replica name>/<operation>"
 }
 
 func (f *faulty) inject(op string) error {
@@ -70,10 +72,16 @@ func (f *faulty) inject(op string) error {
 		case 1:
 			*f.budget--
 			*f.seen = append(*f.seen, codes.Internal)
+			if f.where != nil {
+				*f.where = append(*f.where, f.name+"/"+op)
+			}
 			return status.Errorf(codes.Internal, "injected failure of %s during %s", f.name, op)
 		case 2:
 			*f.budget--
 			*f.seen = append(*f.seen, codes.Unavailable)
+			if f.where != nil {
+				*f.where = append(*f.where, f.name+"/"+op)
+			}
 			return status.Errorf(codes.Unavailable, "injected failure of %s during %s", f.name, op)
 		}
 	}
@@ -119,6 +127,7 @@ type world struct {
 	gets   int // number of round-consuming calls so far
 	budget int
 	seen   []codes.Code
+	where  []string
 	local  bool
 }
 
@@ -127,10 +136,10 @@ func newReplica(name string, local bool, w *world) *replica {
 	if local {
 		g := lstore.Geometry{SectorSize: 4, SectorsPerBlock: 4, Old: 2, Current: 1, New: 1, Spare: 3, IndexSlots: 127, GetAttempts: 16, PutAttempts: 64}
 		r.store = lstore.Open(g, lstore.NewMedia(g))
-		r.ba = &faulty{BlobAccess: r.store.BA, name: name, budget: &w.budget, seen: &w.seen}
+		r.ba = &faulty{BlobAccess: r.store.BA, name: name, budget: &w.budget, seen: &w.seen, where: &w.where}
 	} else {
 		r.model = sim.NewModel(name, digest.KeyWithoutInstance)
-		r.ba = &faulty{BlobAccess: r.model, name: name, budget: &w.budget, seen: &w.seen}
+		r.ba = &faulty{BlobAccess: r.model, name: name, budget: &w.budget, seen: &w.seen, where: &w.where}
 	}
 	return r
 }
@@ -292,7 +301,11 @@ func (w *world) get(i int, composite bool) {
 func (w *world) put(i int) {
 	o := w.objs[i]
 	fb := len(w.seen)
-	src := sim.NewSource(sim.Script{Chunks: [][]byte{o.Content[:1], o.Content[1:]}})
+	chunks := [][]byte{o.Content}
+	if len(o.Content) > 1 {
+		chunks = [][]byte{o.Content[:1], o.Content[1:]}
+	}
+	src := sim.NewSource(sim.Script{Chunks: chunks})
 	src.Gate = func() { vsched.Yield("upload.Read") }
 	err := w.m.Put(context.Background(), o.Digest, newCASReaderBuffer(o.Digest, src))
 	vsched.Obs("Put(%s) -> %s", o.Name, status.Code(err))
@@ -310,6 +323,15 @@ func (w *world) put(i int) {
 		return
 	}
 	w.checkErr("put", err, fb)
+	// An upload involves no repair copy: the replica whose Put failed is the one the error must name.
+	for _, wh := range w.where[fb:] {
+		if strings.HasSuffix(wh, "/Put") {
+			want := "Backend " + strings.TrimPrefix(strings.TrimSuffix(wh, "/Put"), "replica ")
+			if !strings.Contains(err.Error(), want) {
+				failf("put:error-names-the-wrong-replica", "Put(%s): the upload to %s failed, but the error names another replica: %q", o.Name, strings.TrimSuffix(wh, "/Put"), err.Error())
+			}
+		}
+	}
 }
 
 func (w *world) findMissing(mask int) {
